@@ -22,6 +22,10 @@ func ruleTextTrimSet(p *Prog, r *Report, decoders []string) {
 	const rule = "TEXT.trimset"
 	tr := p.Globals["mxj.trimRunes"]
 	if tr == nil {
+		// no cached cut set: the cut set must then be computed from the option's flag
+		tr = p.Globals["mxj.disableTrimWhiteSpace"]
+	}
+	if tr == nil {
 		r.Anchor(rule, "mxj.trimRunes")
 		return
 	}
@@ -70,7 +74,7 @@ func ruleTextTrimSet(p *Prog, r *Report, decoders []string) {
 					if cv, isConv := cut.(*ssa.Convert); isConv {
 						cut = cv.X
 					}
-					if globalOf(cut) != tr && !p.influence(f, false, cut).globals[tr] {
+					if globalOf(cut) != tr && !p.influence(f, true, cut).globals[tr] && !p.blockInfluence(f, c).globals[tr] {
 						bad = "character data is trimmed at " + p.Pos(c.Pos()) + " with a cut set that is not the one DisableTrimWhiteSpace maintains (trimRunes)"
 					}
 				}
@@ -537,6 +541,10 @@ func ruleTableTrimSet(p *Prog, r *Report) {
 	const rule = "TABLE.trimset"
 	g := p.Globals["mxj.trimRunes"]
 	if g == nil {
+		if p.Globals["mxj.disableTrimWhiteSpace"] != nil {
+			r.Assume(rule, "mxj.trimRunes", "the two cut sets differ by the blank only", "", "there is no cut-set variable: the sets are chosen where the text is trimmed and are not compared here")
+			return
+		}
 		r.Anchor(rule, "mxj.trimRunes")
 		return
 	}
@@ -853,4 +861,118 @@ func ruleFwdCastFlag(p *Prog, r *Report, pkgs ...string) {
 		}
 	}
 	_ = n
+}
+
+// ---- ERR.content (C04) ---------------------------------------------------------------------------------------------------------------------
+
+// ruleErrContent: whether the sequence encoder fails depends on the types and the structure of what it is given, never on the
+// content of a scalar: every string (the empty one included), number and boolean is a valid text or attribute value. A return
+// of an error constructed in the encoder (or in a helper it hands values to) is therefore never controlled by a condition that
+// is computed from the content of a scalar — a value taken out of an interface by a type assertion to a basic type or []byte,
+// or the string a helper rendered from such a value ("" used as a sentinel for "not atomic" is the classic case).
+func ruleErrContent(p *Prog, r *Report, encoders []string) {
+	const rule = "ERR.content"
+	isScalar := func(t types.Type) bool {
+		switch u := t.Underlying().(type) {
+		case *types.Basic:
+			return true
+		case *types.Slice:
+			if b, ok := u.Elem().Underlying().(*types.Basic); ok && b.Kind() == types.Byte {
+				return true
+			}
+		}
+		return false
+	}
+	for _, en := range encoders {
+		fn := p.Fn(en)
+		if fn == nil {
+			r.Anchor(rule, en)
+			continue
+		}
+		scope := []*ssa.Function{fn}
+		seen := map[*ssa.Function]bool{fn: true}
+		for i := 0; i < len(scope) && i < 10; i++ {
+			eachInstr(scope[i], func(b *ssa.BasicBlock, in ssa.Instruction) {
+				if c, ok := in.(ssa.CallInstruction); ok {
+					if h := staticCallee(c.Common()); h != nil && p.InModule(h) && !p.Exported(h) && len(h.Blocks) > 0 && !seen[h] && h.Parent() == nil {
+						seen[h] = true
+						scope = append(scope, h)
+					}
+				}
+			})
+		}
+		nErr, bad := 0, ""
+		for _, f := range scope {
+			isContent := func(v ssa.Value) bool {
+				switch x := v.(type) {
+				case *ssa.TypeAssert:
+					return !x.CommaOk && isScalar(x.AssertedType)
+				case *ssa.Extract:
+					if ta, ok := x.Tuple.(*ssa.TypeAssert); ok && x.Index == 0 {
+						return isScalar(ta.AssertedType)
+					}
+					if c, ok := x.Tuple.(*ssa.Call); ok && isScalar(x.Type()) && !isBoolType(x.Type()) {
+						if h := staticCallee(&c.Call); h != nil && p.InModule(h) && !p.Exported(h) {
+							for _, a := range c.Call.Args {
+								if types.IsInterface(a.Type()) {
+									return true
+								}
+							}
+						}
+					}
+				case *ssa.Call:
+					if h := staticCallee(&x.Call); h != nil && p.InModule(h) && !p.Exported(h) && isScalar(x.Type()) && !isBoolType(x.Type()) {
+						for _, a := range x.Call.Args {
+							if types.IsInterface(a.Type()) {
+								return true
+							}
+						}
+					}
+				}
+				return false
+			}
+			eachInstr(f, func(b *ssa.BasicBlock, in ssa.Instruction) {
+				ret, ok := in.(*ssa.Return)
+				if !ok || len(ret.Results) == 0 || bad != "" {
+					return
+				}
+				ev := ret.Results[len(ret.Results)-1]
+				if !isErrorType(ev.Type()) {
+					return
+				}
+				// a constructed error (not one handed up from a callee)
+				constructed := false
+				for x := range backwardSlice(f, ev) {
+					if c, isC := x.(*ssa.Call); isC && isCallTo(&c.Call, "fmt.Errorf", "errors.New") {
+						constructed = true
+					}
+				}
+				if !constructed {
+					return
+				}
+				nErr++
+				for v := range p.blockInfluence(f, ret).values {
+					if isContent(v) {
+						bad = "the error returned at " + p.Pos(ret.Pos()) + " in " + p.Name(f) + " is decided by a condition computed from the content of a scalar value (" + p.Pos(v.Pos()) + ")"
+						return
+					}
+				}
+				// a phi-selected error: the conditions that select it
+				if ph, isPhi := ev.(*ssa.Phi); isPhi {
+					for v := range p.influence(f, true, ph).values {
+						if isContent(v) {
+							bad = "the error returned at " + p.Pos(ret.Pos()) + " in " + p.Name(f) + " is selected by a condition computed from the content of a scalar value (" + p.Pos(v.Pos()) + ")"
+							return
+						}
+					}
+				}
+			})
+		}
+		cons := "failure never depends on the content of a scalar"
+		if bad != "" {
+			r.Bad(rule, en, cons, p.Pos(fn.Pos()), bad+": some strings or numbers (the empty string, typically) cannot be encoded although they are valid values")
+		} else {
+			r.OK(rule, en, cons, p.Pos(fn.Pos()), fmt.Sprintf("%d constructed error return(s) in the encoder and its helpers, none controlled by a condition that reads a scalar's content", nErr))
+		}
+	}
 }
